@@ -334,7 +334,7 @@ def run_impl(case):
 
     for _ in range(2):
         t0 = _today()
-        d = tempfile.mkdtemp(prefix="verif_C34_", dir="/tmp")
+        d = tempfile.mkdtemp(prefix="verif_C34_")
         try:
             for p, c in case["pre"].items():
                 with open(os.path.join(d, p), "w", newline="") as f:
